@@ -2,7 +2,7 @@ import os
 import socket
 import struct
 from typing import Optional
-from urllib.parse import unquote, urlparse
+from urllib.parse import unquote, urlparse, urlsplit
 from ._exceptions import WebSocketProxyException
 
 """
@@ -42,7 +42,8 @@ def parse_url(url: str) -> tuple:
 
     scheme, url = url.split(":", 1)
 
-    parsed = urlparse(url, scheme="http")
+    # urlsplit, not urlparse: ";..." in the last path segment belongs to the path
+    parsed = urlsplit(url, scheme="http")
     if parsed.hostname:
         hostname = parsed.hostname
     else:
@@ -66,10 +67,6 @@ def parse_url(url: str) -> tuple:
         resource = parsed.path
     else:
         resource = "/"
-
-    if parsed.params:
-        # urlparse splits ";params" off the last path segment: it is part of the path
-        resource += f";{parsed.params}"
 
     if parsed.query:
         resource += f"?{parsed.query}"
